@@ -114,6 +114,7 @@ type c13Inj struct {
 	calls    int
 	order    []string
 	fired    bool
+	cancel   context.CancelFunc
 	logSeen  int // did_change_log writes seen in this operation (modes logerr / logstop)
 	sweepErr string
 	nutsNo   []string
@@ -133,8 +134,11 @@ func (d *c13Deco) Commit(ctx context.Context, e orm.DIDChangeLog) error {
 		panic(c13Stop{})
 	}
 	in.calls++
-	if in.mode == "fail" && d.name == "nuts" {
+	if (in.mode == "fail" || in.mode == "failctx") && d.name == "nuts" {
 		in.fired = true
+		if in.mode == "failctx" && in.cancel != nil {
+			in.cancel() // the request is cancelled / times out while did:nuts is publishing
+		}
 		return errC13Injected
 	}
 	err := d.MethodManager.Commit(ctx, e)
@@ -197,6 +201,15 @@ type c13World struct {
 	vmLabel  map[string]int
 	subjects map[string]bool
 	svcs     map[string]bool
+	alias    map[string]string // subject name used in the events -> real subject (Create with NutsLegacyNamingOption picks the name itself)
+	opCancel context.CancelFunc
+}
+
+func (w *c13World) real(s string) string {
+	if r, ok := w.alias[s]; ok {
+		return r
+	}
+	return s
 }
 
 var c13Root = did.MustParseDID("did:web:example.com")
@@ -226,7 +239,7 @@ func (w *c13World) reset(methods []string) {
 	}
 	w.methods = methods
 	w.didLabel, w.vmLabel = map[string]int{}, map[string]int{}
-	w.subjects, w.svcs = map[string]bool{}, map[string]bool{}
+	w.subjects, w.svcs, w.alias = map[string]bool{}, map[string]bool{}, map[string]string{}
 	w.freshManagers()
 }
 
@@ -289,25 +302,27 @@ func (w *c13World) observe(result string) string {
 	if err != nil {
 		listOK = "bad:" + c13ErrClass(err)
 	}
+	known := map[string]bool{}
 	for _, s := range subjects {
-		dids, err := w.mgr.ListDIDs(w.ctx, s)
-		exists, err2 := w.mgr.Exists(w.ctx, s)
+		known[w.real(s)] = true
+		dids, err := w.mgr.ListDIDs(w.ctx, w.real(s))
+		exists, err2 := w.mgr.Exists(w.ctx, w.real(s))
 		if err2 != nil || exists != (err == nil && len(dids) > 0) {
 			listOK = "bad:exists(" + s + ")"
 		}
-		if fmt.Sprint(all[s]) != fmt.Sprint(dids) && !(len(all[s]) == 0 && len(dids) == 0) {
+		if fmt.Sprint(all[w.real(s)]) != fmt.Sprint(dids) && !(len(all[w.real(s)]) == 0 && len(dids) == 0) {
 			listOK = "bad:list(" + s + ")"
 		}
 	}
 	for s := range all {
-		if !w.subjects[s] {
-			listOK = "bad:unknown-subject(" + s + ")"
+		if !known[s] {
+			listOK = "bad:unknown-subject"
 		}
 	}
 	fmt.Fprintf(&sb, " list=%s", listOK)
 	for _, s := range subjects {
 		fmt.Fprintf(&sb, " || %s", s)
-		dids, err := w.mgr.ListDIDs(w.ctx, s)
+		dids, err := w.mgr.ListDIDs(w.ctx, w.real(s))
 		if err != nil {
 			fmt.Fprintf(&sb, " %s", c13ErrClass(err))
 			continue
@@ -354,7 +369,7 @@ func (w *c13World) observe(result string) string {
 		sb.WriteString(" svc=")
 		for i, l := range labels {
 			typ := "T-" + l
-			found, err := w.mgr.FindServices(w.ctx, s, &typ)
+			found, err := w.mgr.FindServices(w.ctx, w.real(s), &typ)
 			if i > 0 {
 				sb.WriteString(";")
 			}
@@ -433,7 +448,11 @@ func (w *c13World) run(ev c13Ev) (c13Ev, string) {
 		if ev.B != "" {
 			w.svcs[ev.B] = true
 		}
-		*w.inj = c13Inj{mode: want, k: wantK, n: len(w.methods)}
+		opCtx, cancel := context.WithCancel(w.ctx)
+		defer cancel()
+		*w.inj = c13Inj{mode: want, k: wantK, n: len(w.methods), cancel: cancel}
+		subj := w.real(ev.Subj)
+		extra := ""
 		var err error
 		stopped := false
 		func() {
@@ -448,17 +467,38 @@ func (w *c13World) run(ev c13Ev) (c13Ev, string) {
 			}()
 			switch ev.Kind {
 			case "create":
-				_, _, err = w.mgr.Create(w.ctx, didsubject.DefaultCreationOptions().With(didsubject.SubjectCreationOption{Subject: ev.Subj}))
+				_, _, err = w.mgr.Create(opCtx, didsubject.DefaultCreationOptions().With(didsubject.SubjectCreationOption{Subject: subj}))
+			case "createleg":
+				// v1 naming: the subject IS the did:nuts DID (only known once the did:nuts document has been generated)
+				docs, name, cerr := w.mgr.Create(opCtx, didsubject.DefaultCreationOptions().With(didsubject.NutsLegacyNamingOption{}))
+				err = cerr
+				if cerr == nil {
+					w.alias[ev.Subj] = name
+					// every DID returned by Create belongs to the returned subject
+					listed, lerr := w.mgr.ListDIDs(w.ctx, name)
+					have := map[string]bool{}
+					for _, id := range listed {
+						have[id.String()] = true
+					}
+					for _, doc := range docs {
+						if lerr != nil || !have[doc.ID.String()] {
+							extra = ":returned-did-not-under-returned-subject"
+						}
+					}
+					if len(listed) != len(docs) {
+						extra = ":returned-did-not-under-returned-subject"
+					}
+				}
 			case "addsvc":
-				_, err = w.mgr.CreateService(w.ctx, ev.Subj, c13Service(ev.A))
+				_, err = w.mgr.CreateService(opCtx, subj, c13Service(ev.A))
 			case "updsvc":
-				_, err = w.mgr.UpdateService(w.ctx, ev.Subj, w.serviceID(ev.Subj, ev.A), c13Service(ev.B))
+				_, err = w.mgr.UpdateService(opCtx, subj, w.serviceID(subj, ev.A), c13Service(ev.B))
 			case "delsvc":
-				err = w.mgr.DeleteService(w.ctx, ev.Subj, w.serviceID(ev.Subj, ev.A))
+				err = w.mgr.DeleteService(opCtx, subj, w.serviceID(subj, ev.A))
 			case "addkey":
-				_, err = w.mgr.AddVerificationMethod(w.ctx, ev.Subj, orm.AssertionKeyUsage())
+				_, err = w.mgr.AddVerificationMethod(opCtx, subj, orm.AssertionKeyUsage())
 			case "deact":
-				err = w.mgr.Deactivate(w.ctx, ev.Subj)
+				err = w.mgr.Deactivate(opCtx, subj)
 			default:
 				w.t.Fatalf("unknown kind %q", ev.Kind)
 			}
@@ -468,7 +508,7 @@ func (w *c13World) run(ev c13Ev) (c13Ev, string) {
 		if w.inj.fired {
 			ev.Fault, ev.K = want, wantK
 		}
-		result := c13ErrClass(err)
+		result := c13ErrClass(err) + extra
 		if stopped {
 			result = "stopped"
 			// the process is gone: volatile state is lost, the database and the network stay
@@ -553,7 +593,7 @@ func c13Variants(sid string, seq []c13Ev, methods []string, rng *rand.Rand, all 
 		f string
 		k int
 	}
-	faults := []fault{{"fail", 0}}
+	faults := []fault{{"fail", 0}, {"failctx", 0}}
 	for k := 0; k <= len(methods); k++ {
 		faults = append(faults, fault{"stop", k})
 	}
@@ -576,6 +616,14 @@ func c13Variants(sid string, seq []c13Ev, methods []string, rng *rand.Rand, all 
 			v = append(v, rest...)
 			v = append(v, c13Ev{Op: "tick", D: 70}, c13Ev{Op: "sweep"})
 			out = append(out, v)
+			// (d) the publish fails (with the request context cancelled or not) and the caller retries AT ONCE, no sweep in between
+			if f.f == "fail" || f.f == "failctx" {
+				v := append([]c13Ev{cfg(fmt.Sprintf("now:%d", j))}, pre...)
+				v = append(v, bad, retry)
+				v = append(v, rest...)
+				v = append(v, c13Ev{Op: "tick", D: 70}, c13Ev{Op: "sweep"})
+				out = append(out, v)
+			}
 			// (c) the did:nuts version was stamped 2 s before the did:web version; the first sweep runs when only it is old
 			if f.f == "stop" && len(methods) == 2 && (all || rng.Intn(2) == 0) {
 				v := append([]c13Ev{cfg(fmt.Sprintf("quiet:%d", j))}, pre...)
@@ -751,6 +799,16 @@ func TestVerifC13(t *testing.T) {
 			exec(v)
 		}
 		exec(c13Variants(fmt.Sprintf("q%d", c), longRepeats, m, rng, false)[0])
+	}
+	// v1 naming (NutsLegacyNamingOption): the subject name is only known once the did:nuts document exists; which method the
+	// MethodManagers map visits first is random, so many rounds (fault-free; both methods, then the single-method nodes)
+	for round := 0; round < 12; round++ {
+		m := c13Configs[0]
+		if round >= 10 {
+			m = c13Configs[round-9]
+		}
+		legacy := []c13Ev{do("createleg", "L", "", ""), do("addsvc", "L", "A", ""), do("addkey", "L", "", ""), do("deact", "L", "", "")}
+		exec(c13Variants(fmt.Sprintf("l%d", round), legacy, m, rng, false)[0])
 	}
 	for i, seq := range fixed {
 		for c, m := range c13Configs {
